@@ -242,6 +242,10 @@ def domain(owner_cls, name, prop, depth, x=None):
             return ['2024-01-02']
         if builtin in ('gYear',):
             return ['2024']
+        if builtin == 'string' and info['minLength'] == 0 and not info['enum'] and not info['pattern'] and not info['list'] \
+                and cname in ('NodeStringProperty', 'StringAttributeProperty'):
+            # plain xsd:string: the empty string is a value of its own (present but empty is not absent)
+            return ['text', 'a<&>" ä€', '', ' two  words ']
     if info is not None and info['enum'] and isinstance(prop, (xs.StringAttributeProperty, xs.NodeStringProperty)):
         return list(info['enum'][:4])
     if cname in ('IntegerAttributeProperty', 'NodeIntProperty', 'UnsignedIntAttributeProperty', 'VersionCounterAttributeProperty',
